@@ -333,7 +333,7 @@ def timeouts(chk, tier, seed):
     chk.extra["request_bound_scenarios"] = len(vecs)
 
 
-def replay(rp):
+def replay(rp, path=None):
     """re-run the scenario of a replay file written by this module; exit 1 when it still fails"""
     import json
     if rp["family"] == "negotiation":
@@ -344,4 +344,7 @@ def replay(rp):
         o = run_parts(rp["scenario"])
     print(json.dumps({"scenario": rp["scenario"], "expected": rp["expected"], "observed_then": rp["observed"], "observed_now": o},
                      indent=1, default=repr))
-    raise SystemExit(1 if json.dumps(o, default=repr) == json.dumps(rp["observed"], default=repr) else 0)
+    same = json.dumps(o, default=repr) == json.dumps(rp["observed"], default=repr)
+    if same and path:
+        print("VIOLATION property=%s replay=%s" % (rp.get("property", "?"), path))
+    raise SystemExit(1 if same else 0)
